@@ -101,6 +101,20 @@ def findings():
           "(a float64 start vector on a float32 operator is rounded to float32), so the first column is not v/||v|| and the factorisation is that of another vector",
           startdtype, "arnoldi(Dense([[2,1,0],[1,3,1],[0,1,4]]), [1+2j,2-1j,3j], max_iters=2)")
 
+    def gap():
+        S = np.array([[2., 1., 0.], [1., 3., 1.], [0., 1., 4.]])
+        v = np.array([1., 0., 0.])                      # A q_0 = (2,1,0): H[0,0] = 2, first remainder 1, ||A q_0|| = sqrt(5)
+        tol = 1.0 / (0.75 * np.sqrt(5.0))               # so that the first remainder is 0.75 * tol * ||A q_0||: inside (tol/2, tol] * ||A q_0||
+        Q, H, _ = arnoldi(ops.Dense(S), v, max_iters=3, tol=tol)
+        Q = np.asarray(Q.to_dense()); H = np.asarray(H.to_dense())
+        res = float(np.abs(S @ Q[:, 1] - Q @ H[:, 1]).max())
+        return np.abs(Q[:, 1]).max() > 0 and np.abs(H[:, 1]).max() == 0 and res > 1e-6, \
+            f"tol={tol:.4g}: Q[:,1]={Q[:, 1].round(3).tolist()} (unit vector) but H[:,1]=0 and the loop stopped: |A q_1 - Q H[:,1]| = {res:.3g}"
+    probe("arnoldi_stop_threshold_gap",
+          "the loop stops when the remainder norm is <= tol*||A q_0|| but the next basis column is only zeroed when it is <= tol/2*||A q_0||: for a remainder in "
+          "(tol/2, tol]*||A q_0|| the run ends with a non-zero basis column q_{j+1} whose column of H was never computed (zero), so A Q[:, :m] = Q H fails in that column",
+          gap, "arnoldi(Dense([[2,1,0],[1,3,1],[0,1,4]]), [1,0,0], max_iters=3, tol=1/(0.75*sqrt(5)))")
+
     def batch():
         w, U = np.linalg.eigh(S5)
         V = np.stack([np.array([1., -1., 2., 0.5, 1.5]), U[:, 0] + U[:, 1]], 1)
